@@ -256,10 +256,8 @@ def check_c04(tier, seed, replay=None):
     import mpirun
     from concurrent.futures import ThreadPoolExecutor
     v = Verdict('C04', tier, seed)
-    bins = build_many([('h_mpi', 'mpi'), ('h_knob', 'plain'), ('h_knob', 'shim'), ('h_sched', 'asan'),
-              ('h_vec', 'valgrind'), ('h_dimacs', 'valgrind'), ('h_parts', 'valgrind'), ('h_exact', 'valgrind')])
-    b = bins[('h_mpi', 'mpi'), ('h_knob', 'plain'), ('h_knob', 'shim'), ('h_sched', 'asan'),
-              ('h_vec', 'valgrind'), ('h_dimacs', 'valgrind'), ('h_parts', 'valgrind'), ('h_exact', 'valgrind')]
+    bins = build_many([('h_mpi', 'mpi')])
+    b = bins[('h_mpi', 'mpi')]
     agg = lib.Agg()
     ncases = T(tier, 40, 600); chunk = T(tier, 40, 100); reps = T(tier, 1, 3)
     jobs = []
